@@ -208,6 +208,7 @@ pub fn random<const N: usize, P: Pad>(ctx: &mut Ctx) {
                 return;
             }
             let mut leaked = false;
+            let reports_at_start = ctx.total_reports;
             let dead = TokG::<P>::new(3);
             let dead_img = image(&dead);
             let dead_id = dead.id;
@@ -252,7 +253,10 @@ pub fn random<const N: usize, P: Pad>(ctx: &mut Ctx) {
                 if out.injected {
                     // whatever goes wrong from here on in this history refutes the fault property
                     let k = fault.unwrap().0;
-                    ctx.attribute = Some(if k == FpKind::Drop { "C05" } else { "C06" });
+                    // ... unless this history had already deviated before any fault was injected
+                    if ctx.total_reports == reports_at_start {
+                        ctx.attribute = Some(if k == FpKind::Drop { "C05" } else { "C06" });
+                    }
                     if k == FpKind::Drop {
                         leaked = true;
                     }
